@@ -428,6 +428,20 @@ theorem TtnoProgram.value_padded {kt : Tree} {binds : List (Leg × Leg)} {e K O 
     h.disjointKB h.disjointOB h.root_fresh h.record h.K_bonds h.O_bonds h.B_bonds h.in_free h.out_free
     h.rootK_free h.rootB_free h.leaves hp.dimK hp.dimB hp.K_zero hp.B_zero σ
 
+/-- **`PaddedRoot` from the padded root TENSORS.**  It suffices that the tensor of the ket copy of the state's
+root (a leaf of `K`) vanishes off index `0` of its root-bond leg — that is `padded_root_index` for the tensor
+`from_ttns` builds — and likewise for the bra copy: the zero padding survives the contraction of the copies. -/
+theorem PaddedRoot.of_tensors (dim : Leg → Nat) (kt : Tree) (K B : Expr Leg R) (hK : K.SWF) (hB : B.SWF)
+    (hgK : Leg.gKet kt.id 0 ∈ K.free) (hgB : Leg.gBra kt.id 0 ∈ B.free)
+    (kl bl : List Leg × (Asg Leg → R)) (hkl : kl ∈ K.leaves) (hbl : bl ∈ B.leaves)
+    (hkz : ∀ ρ : Asg Leg, ρ (Leg.gKet kt.id 0) ≠ 0 → kl.2 ρ = 0)
+    (hbz : ∀ ρ : Asg Leg, ρ (Leg.gBra kt.id 0) ≠ 0 → bl.2 ρ = 0)
+    (hdK : 0 < dim rootKetLeg) (hdB : 0 < dim rootBraLeg) : PaddedRoot dim kt K B where
+  dimK := hdK
+  dimB := hdB
+  K_zero := eval_zero_of_leaf_zero dim K hK _ hgK kl hkl hkz
+  B_zero := eval_zero_of_leaf_zero dim B hB _ hgB bl hbl hbz
+
 end
 
 end Ptn.C16.Ttndo
